@@ -234,8 +234,10 @@ pub fn step(n: usize, fut: &mut NodeFut) -> PollOutcome {
     step_inner(n, fut, true)
 }
 
-/// Like `step`, but if the node turns out to wait on a real thread, return `Blocked` at once
-/// instead of waiting (the node keeps waiting in the background; `step` it again later).
+/// Like `step`, but if the real thread the node waits on is seen waiting for a database lock
+/// (SQLite's busy handler sleeping), return `Blocked` instead of waiting for the lock (the node
+/// keeps waiting in the background; `step` it again later). Only to be used while no other
+/// thread is busy-waiting.
 pub fn step_nowait(n: usize, fut: &mut NodeFut) -> PollOutcome {
     step_inner(n, fut, false)
 }
@@ -250,6 +252,9 @@ fn step_inner(n: usize, fut: &mut NodeFut, wait: bool) -> PollOutcome {
         c.parked = None;
         c.crash = false;
     });
+    if !wait {
+        crate::interpose::busy_listen(true);
+    }
     let out = loop {
         match fut.as_mut().poll(&mut cx) {
             Poll::Ready(()) => break PollOutcome::Done,
@@ -262,7 +267,23 @@ fn step_inner(n: usize, fut: &mut NodeFut, wait: bool) -> PollOutcome {
                     break PollOutcome::Parked(k);
                 }
                 if !wait {
-                    break PollOutcome::Blocked;
+                    // exactly one of two things happens next, whatever the timing: the real
+                    // thread replies, or it is seen sleeping in SQLite's busy handler
+                    let mut busy = false;
+                    loop {
+                        if tw.woken.swap(false, Ordering::SeqCst) {
+                            break;
+                        }
+                        if crate::interpose::busy_seen() {
+                            busy = true;
+                            break;
+                        }
+                        std::thread::park_timeout(std::time::Duration::from_millis(50));
+                    }
+                    if busy {
+                        break PollOutcome::Blocked;
+                    }
+                    continue;
                 }
                 while !tw.woken.swap(false, Ordering::SeqCst) {
                     std::thread::park();
@@ -270,6 +291,9 @@ fn step_inner(n: usize, fut: &mut NodeFut, wait: bool) -> PollOutcome {
             }
         }
     };
+    if !wait {
+        crate::interpose::busy_listen(false);
+    }
     with_ctx(|c| c.active = false);
     out
 }
